@@ -7,7 +7,8 @@ import RtenVerif.Model.Generator
 Request: `kv=<0|1> cfg=<layout> <op> <op> …` with ops
 `W:<csv>` with_prompt, `A:<csv>` append_prompt, `C` clear_prompt, `P` process_prompt,
 `N:<tok>` next (sampler returns `tok`), `E` next with a filter that removes every candidate,
-`PF` / `NF` process_prompt / next where `Model::run` fails.
+`PF` / `NF` process_prompt / next where `Model::run` fails, `NL` next where the run succeeds
+but the logits output has the wrong rank.
 `<layout>` is ignored except for the letters `a<0|1>` (model has an `attention_mask` input) and
 `e<0|1>` (model has encoder caches and a `use_cache_branch` input), which only select what is
 printed.
@@ -20,7 +21,16 @@ is not observable in the call; `<cache>` = `c<id>:<len>`, `c-` when the model ha
 `cMISSING` when it has but none was supplied; an empty cache is always printed `c0:0` because
 empty caches are indistinguishable),
 `<filter>` = `F(<prev_tokens seen by the filter>)` or `-`,
-`<outcome>` = `ok` | `tok=<t>` | `err=empty` | `err=run` | `panic`.
+`<outcome>` = `ok` | `tok=<t>` | `err=empty` | `err=run` | `err=logits` | `panic`.
+
+`spec kv=<0|1> cfg=… <ops> :: <observed calls> :: prev=<csv> in=<csv>`: the *specification* side
+evaluated on what the implementation did: the observed calls (same syntax as inside `R(…)`)
+are parsed into the model's `Call` records and checked with the Lean predicates the theorems
+are about — `Spec.run` (`calls`, `hist`, `pend`), `logOk`/`logOkNoKv`, `positions ∘ okCalls`,
+`submitted`.  Answer `spec-ok` or `spec-FAIL:<failed predicates>`.  Only sent for mock layouts
+where every field is observable (attention mask present; encoder layout when there is a KV
+cache).  An observed empty cache `c0:0` is identified with the expected cache when that is
+empty too (empty tensors carry no stamp).
 
 `api <names…>`: the public methods of `Generator` found in the source (plus `next`); the answer
 is `api-ok` iff they are exactly the ones this model classifies (history operations, observers,
@@ -38,6 +48,7 @@ def parseOp (w : String) : Option Op :=
   else if w == "E" then some .nextEmpty
   else if w == "PF" then some .processFail
   else if w == "NF" then some .nextFail
+  else if w == "NL" then some .nextBadLogits
   else match w.splitOn ":" with
     | ["W", l] => (parseNatList "," l).map .withPrompt
     | ["A", l] => (parseNatList "," l).map .append
@@ -73,6 +84,7 @@ def showOut : Outcome → String
   | .errEmpty => "err=empty"
   | .panicNoRow => "panic"
   | .errRun => "err=run"
+  | .errLogits => "err=logits"
 
 def showKv : Option (Option (Nat × Nat)) → String
   | some (some (_, len)) => toString len
@@ -99,9 +111,89 @@ def apiAnswer (names : List String) : String :=
   if extra.isEmpty && missing.isEmpty then "api-ok"
   else s!"api-changed unmodelled=[{joinWith "," extra}] missing=[{joinWith "," missing}]"
 
+def parseCache (w : String) : Option (Option (Option (Nat × Nat))) :=
+  if w == "c-" then some none
+  else if w == "cMISSING" then some (some none)
+  else match (w.drop 1).toString.splitOn ":" with
+    | [i, l] => do let i ← i.toNat?; let l ← l.toNat?; pure (some (some (i, l)))
+    | _ => none
+
+/-- `toks@start;cache;L<b>;m<n>;u<b|->;e<n|->;ok|FAIL` -/
+def parseObs (w : String) : Option Call :=
+  match w.splitOn ";" with
+  | [ts, cache, lg, m, u, e, ok] => do
+    let (toksS, startS) ← match ts.splitOn "@" with
+      | [a, b] => some (a, b)
+      | _ => none
+    let toks ← parseNatList "," toksS
+    let start ← startS.toNat?
+    let cacheIn ← parseCache cache
+    let attn ← (m.drop 1).toString.toNat?
+    let flag := u == "u1"
+    let encIn := ((e.drop 1).toString.toNat?).getD 0
+    pure { toks := toks, start := start, cacheIn := cacheIn, logits := lg == "L1", attn := attn,
+           flag := flag, encIn := encIn, ok := ok == "ok" }
+  | _ => none
+
+/-- Identify an observed empty cache with the expected one when that is empty as well. -/
+def reconcile : LogSt → List Call → List Call
+  | _, [] => []
+  | st, c :: cs =>
+    let c' := match c.cacheIn, st.held with
+      | some (some (0, 0)), some (i, 0) => { c with cacheIn := some (some (i, 0)) }
+      | _, _ => c
+    c' :: reconcile (logStep st c') cs
+
+def specAnswer (hasKv : Bool) (ops : List Op) (obs : List Call) (prev pend : List Nat) : String :=
+  let sp := Spec.run hasKv ops
+  let obs := if hasKv then reconcile LogSt.init obs else obs
+  let checks : List (String × Bool) :=
+    [("calls", obs.map (fun c => (c.toks, c.ok)) == sp.calls),
+     ("hist", prev == sp.hist),
+     ("pend", pend == sp.pend.map (·.1)),
+     ("log", if hasKv then logOk obs else logOkNoKv obs),
+     ("positions", !hasKv || positions (okCalls obs) == List.range (fed (okCalls obs)).length),
+     ("submitted", !hasKv || fed (okCalls obs) ++ pend == submitted ops)]
+  let bad := (checks.filter (fun c => !c.2)).map (·.1)
+  if bad.isEmpty then "spec-ok" else "spec-FAIL:" ++ joinWith "," bad
+
+def handleSpec (ws : List String) : String :=
+  match (joinWith " " ws).splitOn " :: " with
+  | [opsPart, obsPart, finPart] =>
+    let ow := words opsPart
+    let hasKv? := match ow with
+      | "kv=1" :: _ => some true
+      | "kv=0" :: _ => some false
+      | _ => none
+    let opsw := (ow.drop 1).filter (fun w => !w.startsWith "cfg=")
+    let fw := words finPart
+    match hasKv?, opsw.mapM parseOp, ((words obsPart).filter (· != "-")).mapM parseObs,
+          (field "prev" fw).bind (parseNatList ","), (field "in" fw).bind (parseNatList ",") with
+    | some hasKv, some ops, some obs, some prev, some pend => specAnswer hasKv ops obs prev pend
+    | _, _, _, _, _ => "bad-request"
+  | [opsPart, finPart] =>   -- no call observed
+    handleSpecNoCalls opsPart finPart
+  | _ => "bad-request"
+where
+  field (key : String) (ws : List String) : Option String :=
+    (ws.find? (·.startsWith (key ++ "="))).map (fun w => (w.drop (key.length + 1)).toString)
+  handleSpecNoCalls (opsPart finPart : String) : String :=
+    let ow := words opsPart
+    let hasKv? := match ow with
+      | "kv=1" :: _ => some true
+      | "kv=0" :: _ => some false
+      | _ => none
+    let opsw := (ow.drop 1).filter (fun w => !w.startsWith "cfg=")
+    let fw := words finPart
+    match hasKv?, opsw.mapM parseOp,
+          (field "prev" fw).bind (parseNatList ","), (field "in" fw).bind (parseNatList ",") with
+    | some hasKv, some ops, some prev, some pend => specAnswer hasKv ops [] prev pend
+    | _, _, _, _ => "bad-request"
+
 def handle (line : String) : String :=
   match words line with
   | "api" :: names => apiAnswer names
+  | "spec" :: ws => handleSpec ws
   | kvw :: rest =>
     let hasKv? := if kvw == "kv=1" then some true else if kvw == "kv=0" then some false else none
     let opsw := rest.filter (fun w => !w.startsWith "cfg=")
